@@ -87,6 +87,30 @@ def graph_recursion(check: Check, repo: Repo) -> None:
     check.count("rule_graph_recursions", n_inst)
 
 
+def _parse_int_on_model(repo: Repo) -> tuple[bool, str] | None:
+    from .. import tokparse
+    from ..ordabs import ModelRaise, Unsupported
+
+    try:
+        cm = tokparse.program(repo, "C11 NUM-BOUND")
+        kind = tokparse.K("NUMBER")
+        bad = []
+        for text in ("0", "7", "65535", "2147483647", "2147483648", "4294967295", "4294967296", "99999999999999999999", "9" * 5000, "-1", "-2147483648", "-2147483649", "-99999999999999999999"):
+            tok = cm.new("Token", kind, text, 0, "x" * 40)
+            parser = cm.new("Parser", [tok], {})
+            try:
+                v = cm.call(parser, "parse_int", tok)
+            except ModelRaise as err:
+                if "PestGrammar" not in str(err):
+                    bad.append(f"{text[:24]}: raises {err}")
+                continue
+            if not isinstance(v, int) or not -(2**32) <= v <= 2**32:
+                bad.append(f"{text[:24]}: returns {str(v)[:24]}")
+        return (not bad, "numbers beyond u32 / i32 end in a grammar error" if not bad else "; ".join(bad[:3]))
+    except (AnalysisError, Unsupported, AttributeError, KeyError, TypeError):
+        return None
+
+
 def number_bounds(check: Check, repo: Repo) -> None:
     """Numbers read from the grammar text are range-checked where they are converted."""
     rel = "src/pest/grammar/parser.py"
@@ -126,6 +150,13 @@ def number_bounds(check: Check, repo: Repo) -> None:
                 bounded = bounded and "PestGrammar" in exc
     direct = any(isinstance(r.value, ast.Call) and isinstance(r.value.func, ast.Name) and r.value.func.id == "int" for r in rets)
     ok = bounded and not direct
+    # decided on the model: parse_int on number tokens around pest's u32 / i32 bounds and far beyond returns a number
+    # within them or ends in a grammar error (the reading of the range test above is a second opinion behind it)
+    sem = _parse_int_on_model(repo)
+    if sem is not None:
+        if sem[0] and not ok:
+            check.notes.append(f"NUM-BOUND: the range test is not written the way the structural reading expects; decided on the model: {sem[1]}")
+        ok, lo, hi = sem[0], -(2**31), 2**32 - 1
     sig = "parse_int returns numbers of any magnitude"
     check.oblige("NUM-BOUND", construct, f"parse_int rejects numbers outside [{lo}, {hi}] with a grammar error" if ok else sig, ok,
                  finding=Finding("NUM-BOUND", construct, sig, "parse_int does not bound the value it returns: `\"x\"{99999999999999999999}` reaches itertools.repeat / list multiplication and OverflowError escapes from Parser.from_grammar (pest: u32 / i32)", {}))
